@@ -80,3 +80,59 @@ func TestVerifFindingSaveDropsInitial(t *testing.T) {
 		t.Errorf("undoing repeatedly ends at %q, the initial content \"\" is unreachable", got)
 	}
 }
+
+// C08: (*Sources).Write/inv-step:L1 — the history-size test is inverted: with a limit set, nothing is
+// recorded until the source already holds MORE entries than the limit (never, starting from empty).
+func TestVerifFindingHistorySizeInverted(t *testing.T) {
+	line := new(core.Line)
+	cur := core.NewCursor(line)
+	cfg := inputrc.NewDefaultConfig()
+	cfg.Set("history-size", 2)
+	h := NewSources(line, cur, new(ui.Hint), cfg)
+	Init(h)
+	for _, s := range []string{"one", "two"} {
+		line.Set([]rune(s)...)
+		h.Accept(false, false, nil)
+	}
+	if n := h.Current().Len(); n != 2 {
+		t.Errorf("history-size 2: %d entries recorded after accepting 2 lines, want 2", n)
+	}
+}
+
+// C08: (*Sources).Write/post:exactly-once — a duplicate in the first-visited source returns out of the
+// loop and suppresses the write to every source visited later (map order: retried until seen).
+func TestVerifFindingDuplicateStopsOtherSources(t *testing.T) {
+	for try := 0; try < 64; try++ {
+		line := new(core.Line)
+		cur := core.NewCursor(line)
+		h := NewSources(line, cur, new(ui.Hint), inputrc.NewDefaultConfig())
+		a, b := NewInMemoryHistory(), NewInMemoryHistory()
+		a.Write("same")
+		h.Add("a", a)
+		h.Add("b", b)
+		Init(h)
+		line.Set([]rune("same")...)
+		h.Accept(false, false, nil)
+		if b.Len() != 1 {
+			t.Errorf("try %d: source b has %d entries, want 1 (the line is not a duplicate there)", try, b.Len())
+			return
+		}
+	}
+}
+
+// C09: (*Sources).getLine/post:uses-typed-text — the search text for history-search-backward/forward is
+// read from slot 0 of the per-line histories (the oldest history entry) instead of slot -1 (the buffer
+// being typed), so the search ignores what the user typed.
+func TestVerifFindingHistorySearchIgnoresTypedText(t *testing.T) {
+	h, line, cur := newTestSources()
+	for _, s := range []string{"one", "two", "three"} {
+		h.Current().Write(s)
+	}
+	line.Set([]rune("o")...)
+	cur.Set(1)
+	h.Save()
+	h.InsertMatch(nil, nil, true, false, false) // history-search-backward
+	if got := string(*line); got != "one" {
+		t.Errorf("history-search-backward with buffer %q: got %q, want %q", "o", got, "one")
+	}
+}
